@@ -177,12 +177,13 @@ def gen_scenarios(c, nref):
         scs.append(cases.sc_done_marker(f"d{i:04d}", None if real else pres[i % 4], rng.choice([1, 2, 3]), rng.random() < 0.5, real))
     for i in range(n_comp):
         ns = rng.choice([2, 2, 3])
-        delays = [round(rng.choice([0.0, 0.0, rng.uniform(0, 0.3), rng.uniform(0, 1.2)]), 3) for _ in range(ns)]
+        delays = [round(rng.choice([0.0, 0.0, rng.uniform(0, 0.05), rng.uniform(0, 0.3), rng.uniform(0, 1.0)]), 3) for _ in range(ns)]
         kill = None
         if rng.random() < 0.3:
             kill = (rng.randrange(ns), rng.randrange(1, nref + 25))
         scs.append(cases.sc_compete(f"c{i:04d}", ns, delays, round(rng.choice([0.0, 0.05, 0.2, 0.5]), 2), rng.random() < 0.25, kill,
-                                    latch_at=rng.choice([None, None, round(rng.uniform(0.5, 3.0), 2)])))
+                                    latch_at=rng.choice([None, None, round(rng.uniform(0.3, 2.0), 2)]),
+                                    barrier=rng.random() < 0.8))
     if not c.quick:
         rng.shuffle(scs)
     return scs
